@@ -1699,7 +1699,7 @@ pub proof fn lemma_copy_ok_prefix(s: St, c: CopyV, items: Seq<ItemV>, k: nat, n:
 //@ ins after re⟦_mkdir_m\(guard, &dst_path, [^;]*\)\?;⟧
                     proof { lemma_mk_all_keeps(st1, d, or_mode(c.dmode, e.mode), d.len()); }
 //@ endins
-//@ ins before ⟦if !guard.contains_entry(&dst_path.dir()?) {⟧
+//@ ins before re⟦if !guard\.contains_entry\(&dst_(?:path\.dir\(\)\?|dir)\) \{⟧
                     let ghost dd = d.drop_last();
                     proof { if p.len() > 0 { assert(spec_abs(st1.cwd, abs_comps(p.drop_last())) == Some(p.drop_last())); } }
 //@ endins
